@@ -111,7 +111,9 @@ debug = false
 incremental = false
 ''' % {"r": REPO})
     open(os.path.join(d, ".cargo", "config.toml"), "w").write('[net]\noffline = true\n[build]\ntarget-dir = "%s"\n' % TARGET)
-    shutil.copy(os.path.join(REPO, "Cargo.lock"), os.path.join(d, "Cargo.lock"))
+    # the lock file committed with the harness (a copy of the repository's, which is not tracked by git there)
+    lock = os.path.join(REPO, "Cargo.lock")
+    shutil.copy(lock if os.path.exists(lock) else os.path.join(fw.HARNESS, "Cargo.lock"), os.path.join(d, "Cargo.lock"))
     parts, body = [], []
     for i, c in enumerate(valid):
         body.append("    " + stmt(c, "direct"))
@@ -124,10 +126,13 @@ incremental = false
     open(os.path.join(d, "src", "main.rs"), "w").write(RT_HELPERS + "\n".join(parts) + main)
 
 
-def build_crate(d):
-    """cargo build of the generated crate; returns (binary path, {crate name: artifact file}, deps dir)"""
-    rc, out = fw.sh(["cargo", "build", "--offline", "--message-format=json"], cwd=d, timeout=3000,
-                    env={"CARGO_ENCODED_RUSTFLAGS": "", "RUSTFLAGS": "-Awarnings"})
+def build_crate(d, w32=False):
+    """cargo build of the generated crate; returns (binary path, {crate name: artifact file}, deps dir).
+    w32: build everything with 32-bit machine words (--cfg force_bits="32"), in a target directory of its own"""
+    env = {"CARGO_ENCODED_RUSTFLAGS": "", "RUSTFLAGS": "-Awarnings"}
+    if w32:
+        env = {"CARGO_ENCODED_RUSTFLAGS": "\x1f".join(["-Awarnings", "--cfg", 'force_bits="32"']), "CARGO_TARGET_DIR": TARGET + "-w32"}
+    rc, out = fw.sh(["cargo", "build", "--offline", "--message-format=json"], cwd=d, timeout=3000, env=env)
     arts, exe, errors = {}, None, []
     for line in out.splitlines():
         if not line.startswith("{"):
@@ -263,6 +268,28 @@ def run_cases(ctx, cases):
         events.append(e)
     if len(events) != 2 * len(valid):
         raise fw.ToolError("generated program printed %d events for %d literals" % (len(events), len(valid)))
+    # the same program with 32-bit machine words: the static / const paths of the macros select their data by word size
+    try:
+        exe32, _ = build_crate(d, w32=True)
+        rc, out = fw.sh([exe32], timeout=600)
+        if rc != 0:
+            raise fw.ToolError("generated program (32-bit words) failed rc=%d: %s" % (rc, out[-1500:]))
+    except fw.ToolError as ex:
+        # the 64-bit build of the very same program succeeded: literals that are valid do not compile (or abort) with
+        # 32-bit words.  That is a verdict about the macros, not a tool problem.
+        ctx.violations.append(({"op": "build-32-bit-words", "macro": "-", "error": str(ex)[:1500]},
+                               "valid-literal-does-not-compile-with-32-bit-words", "build"))
+        out = ""
+    n32 = 0
+    for line in out.splitlines():
+        if line.startswith("{"):
+            o = json.loads(line)
+            e = dict(byid[o["id"]])
+            e.update({"via": o["via"], "mv": o["mv"], "rv": o["rv"], "words": 32})
+            events.append(e)
+            n32 += 1
+    if out and n32 != 2 * len(valid):
+        raise fw.ToolError("generated program (32-bit words) printed %d events for %d literals" % (n32, len(valid)))
     res = compile_invalid(ctx, arts, invalid) if invalid else {}
     for c in invalid:
         e = dict(c)
